@@ -13,11 +13,13 @@ import harness
 import session
 from codec import le, unle
 from oracle import a64
+from oracle import thumb
 from oracle import bls as O
 import c02
 from c02 import FQ, FR, cls_vs_p, chain, redc_v
 
 A64 = 'embedded_pairing_core_arch_aarch64_'
+V6M = 'embedded_pairing_core_arch_armv6_m_'
 W = 1 << 384
 
 
@@ -273,6 +275,63 @@ def a64_run(progs, machine, kind, F, prm, coverage):
     return out, flag
 
 
+def thumb_reduce_extern(m, r):
+    """src/core/arch/armv6_m/fp.cpp: FpBase<384>::reduce(a, p) - the C++ glue the assembly calls for the final subtraction"""
+    a = int.from_bytes(m.read(r[1], 48), 'little')
+    p = int.from_bytes(m.read(r[2], 48), 'little')
+    m.write(r[0], ((a - p) if a >= p else a).to_bytes(48, 'little'))
+
+
+def thumb_run(progs, machine, kind, F, prm, coverage, mov_mode):
+    """execute the ARMv6-M routine (source-level interpretation); returns (result, flag) or None"""
+    if F is not FQ or kind in ('fpadd', 'fpsub', 'fpdbl'):
+        return None
+    p = F.p
+    inv = (-pow(p, -1, 1 << 32)) % (1 << 32)
+    al = prm['alias']
+    a = prm.get('a')
+    b = prm.get('b')
+    M = machine
+    M.write(PP, p.to_bytes(48, 'little'))
+    if a is not None:
+        M.write(AA, a.to_bytes(48, 'little'))
+    if b is not None:
+        M.write(BB, b.to_bytes(48, 'little'))
+    res, aa, bb = RES, AA, BB
+    if al == 1:
+        res = AA
+    elif al == 2:
+        res = BB
+    elif al == 3:
+        res = AA
+        bb = AA
+    name = {'add': 'bigint_384_add', 'sub': 'bigint_384_subtract', 'shl1': 'bigint_384_multiply2', 'mul': 'bigint_768_multiply', 'sqr': 'bigint_768_square',
+            'mred': 'fpbase_384_montgomery_reduce', 'fpmul': 'fpbase_384_multiply', 'fpsqr': 'fpbase_384_square'}[kind]
+    full = V6M + name
+    prog = progs['bigint' if kind in ('add', 'sub', 'shl1') else 'multiply']
+    if kind in ('add', 'sub'):
+        args = [res, aa, bb]
+    elif kind == 'shl1':
+        args = [res, aa]
+    elif kind == 'mul':
+        args = [RES, AA, BB]
+    elif kind == 'sqr':
+        args = [RES, AA]
+    elif kind == 'mred':
+        M.write(BB, prm['T'].to_bytes(96, 'little'))
+        args = [RES, BB, PP, inv]
+    elif kind == 'fpmul':
+        args = [res, aa, bb, PP, inv]
+    else:
+        args = [res, aa, PP, inv]
+    r0, executed, lowmov = M.call(prog, full, args, mov_mode=mov_mode)
+    coverage.setdefault(full, set()).update(executed)
+    n = 96 if kind in ('mul', 'sqr') else 48
+    out = int.from_bytes(M.read(res if kind not in ('mul', 'sqr', 'mred') else RES, n), 'little')
+    flag = r0 if kind in ('add', 'sub', 'shl1') else None
+    return out, flag
+
+
 def worker(sh):
     rng = sh.rng
     vecs = gen_vectors(random.Random(33) if sh.index == 0 else rng, sh.pick(40, 1500), directed=(sh.index == 0) or (not sh.quick and sh.index < 4))
@@ -293,6 +352,13 @@ def worker(sh):
     for base in (RES, AA, BB, PP):
         machine.map(base, 128)
     cov = {}
+    tprogs = sh.payload['v6m']
+    tmachine = thumb.Machine()
+    tmachine.externs[V6M + 'fpbase_384_reduce'] = thumb_reduce_extern
+    for base in (RES, AA, BB, PP):
+        tmachine.map(base, 128)
+    tcov = {}
+    thumb_budget = sh.pick(60, 1500)
     a64_budget = sh.pick(250, 6000)
     for i, ((kind, F, prm), line) in enumerate(zip(vecs, lines)):
         exp_val, exp_flag, cls = expected(kind, F, prm)
@@ -320,6 +386,20 @@ def worker(sh):
                 a64_budget -= 1
                 results['aarch64-interp'] = (le(r[0], nb), r[1])
                 sh.count('aarch64_routine_calls')
+        # ARMv6-M sources, interpreted at source level under all three readings of the low-register MOV (see oracle/thumb.py)
+        if thumb_budget > 0 and (kind in ('mul', 'sqr', 'mred', 'fpmul', 'fpsqr', 'add', 'sub', 'shl1')) and F is FQ and (sh.index == 0 or i % 7 == sh.index % 7):
+            try:
+                rs = [thumb_run(tprogs, tmachine, kind, F, prm, tcov, mm) for mm in (0, 1, 2)]
+            except (thumb.CalleeSaved, MemoryError) as e:
+                sh.violation('armv6m:%s:%s' % (kind, type(e).__name__), 'ARMv6-M routine misbehaved under the interpreter: %s on %s' % (e, line[:200]), {'line': line})
+                rs = [None]
+            if rs[0] is not None:
+                thumb_budget -= 1
+                if rs[0] != rs[1] or rs[0] != rs[2]:
+                    sh.harness_errors.append('ARMv6-M result depends on the flag behaviour of low-register MOV (ambiguous without the assembler): %s' % line[:200])
+                else:
+                    results['armv6m-source-interp'] = (le(rs[0][0], nb), rs[0][1])
+                    sh.count('armv6m_routine_calls', 3)
         for be, (tok, flag) in results.items():
             bad_val = tok != exp_tok
             bad_flag = exp_flag is not None and flag is not None and int(bool(flag)) != int(bool(exp_flag)) if kind != 'shl1' else (flag is not None and flag != exp_flag)
@@ -337,6 +417,7 @@ def worker(sh):
             sh.sample({'vector': line[:150], 'class': cls, 'backends': sorted(results)}, limit=4)
     sh.extra['a64_coverage'] = {k: len(v) for k, v in cov.items()}
     sh.extra['a64_executed_addresses'] = {k: sorted(v) for k, v in cov.items()}
+    sh.extra['v6m_executed'] = {k: sorted(v) for k, v in tcov.items()}
 
 
 def run(ctx):
@@ -351,11 +432,16 @@ def run(ctx):
             raise harness.HarnessError('AArch64 sources not covered by the interpreter: %s' % e)
     finally:
         shutil.rmtree(work, ignore_errors=True)
+    try:
+        v6m = {'bigint': thumb.Program(os.path.join(build.REPO, 'src/core/arch/armv6_m/bigint.s')), 'multiply': thumb.Program(os.path.join(build.REPO, 'src/core/arch/armv6_m/multiply.s'))}
+        thumb.selftest()
+    except thumb.Unsupported as e:
+        raise harness.HarnessError('ARMv6-M sources not covered by the source-level interpreter: %s' % e)
     exes = session.build_exes({'bmi2': ('prod', 'opdrv.cpp', []), 'x86base': ('prod', 'opdrv.cpp', ['--x86base']), 'p64': ('p64', 'opdrv.cpp', []), 'p32': ('p32', 'opdrv.cpp', [])})
     rc, out, err = harness.run_driver(exes['bmi2'][0], 'asm.cpu\n')
     if 'asm.cpu 1' not in out:
         raise harness.HarnessError('this host lacks BMI2/ADX: the BMI2 routine family cannot be executed (inconclusive)')
-    results = session.run_shards(ctx, worker, 16, exes, {'a64': progs})
+    results = session.run_shards(ctx, worker, 16, exes, {'a64': progs, 'v6m': v6m})
     # instruction coverage of the AArch64 routines (union over shards)
     cov = {}
     for r in results:
@@ -373,6 +459,22 @@ def run(ctx):
         a64cov[name.replace(A64, '')] = '%d/%d instructions executed' % (len(done), len(total))
         if len(done) != len(total):
             ctx.required_classes.add('aarch64-instruction-coverage:%s' % name.replace(A64, ''))
+    # ARMv6-M: every instruction between a routine's label and its return must have been executed
+    tcov = {}
+    for r in results:
+        for k, v in r['extra'].get('v6m_executed', {}).items():
+            tcov.setdefault(k, set()).update(v)
+    v6cov = {}
+    for pname, prog in v6m.items():
+        labs = sorted(prog.labels.items(), key=lambda kv: kv[1])
+        for li, (name, start) in enumerate(labs):
+            end = labs[li + 1][1] if li + 1 < len(labs) else len(prog.ins)
+            done = len([a for a in range(start, end) if a in tcov.get(name, set())])
+            v6cov[name.replace(V6M, '')] = '%d/%d instructions executed' % (done, end - start)
+            if done != end - start:
+                ctx.required_classes.add('armv6m-instruction-coverage:%s' % name.replace(V6M, ''))
+    ctx.extra['armv6m_instruction_coverage'] = v6cov
+    ctx.extra.pop('v6m_executed', None)
     ctx.extra.pop('a64_executed_addresses', None)
     ctx.extra.pop('a64_coverage', None)
     ctx.extra['aarch64_instruction_coverage'] = a64cov
@@ -390,13 +492,15 @@ def run(ctx):
                 ctx.violation('higher-layer:%s' % v['key'].split(':', 1)[1], v['what'], v['replay'])
         ctx.event('higher-layer-differential:%s' % mod.__name__.upper(), 'prod/x86base/p64/p32', n=max(1, sub.extra.get('differential_lines_compared', 1)))
     ctx.extra['configurations_executed'] = ['x86-64 BMI2/ADX asm (dispatch + direct)', 'x86-64 baseline asm (dispatch pointers swapped + direct)', 'portable C++ 64-bit words', 'portable C++ 32-bit words',
-                                            'AArch64 asm under oracle/a64.py']
-    ctx.extra['configurations_not_executed'] = ['armv6_m asm (pre-UAL Thumb syntax cannot be assembled by llvm-mc; no emulator in the image)']
+                                            'AArch64 asm under oracle/a64.py', 'ARMv6-M asm under the source-level interpreter oracle/thumb.py (macro expansion + Thumb-1 semantics, three readings of low-register MOV)']
+    ctx.extra['configurations_not_executed'] = []
+    ctx.extra['armv6m_caveat'] = 'the ARMv6-M files cannot be assembled here (pre-UAL syntax), so the source text is interpreted, not machine code; src/core/arch/armv6_m/fp.cpp (C++ glue for the final subtraction) is modelled by its one-line definition'
     ctx.rule = ('one event = one raw multi-precision / modular routine call on one back end, judged against Python integers (result bytes and carry/borrow/shift-out) and required byte-identical on all back ends; '
                 'vectors: limb patterns (all-ones, single words, 2^k-1), carry/borrow chains through every limb, sums on/around q with equal top word, reduction inputs T = v*2^384 - m*q with prescribed '
                 'pre-subtraction value v (every arm of the compare-and-subtract tails, v = q exactly, meta-carry in intermediate rounds), products with prescribed residue; each with a distinct and an '
                 'aliased output where the signature allows; class = (routine, branch class, alias pattern). The AArch64 routines must execute every instruction at least once.')
-    ctx.assumptions = ['Python integer arithmetic', 'oracle/a64.py implements the 15 instruction forms that occur (unit-tested on hand-computed flag cases); not silicon', 'ARMv6-M assembly is not executed']
+    ctx.assumptions = ['Python integer arithmetic', 'oracle/a64.py implements the 15 instruction forms that occur (unit-tested on hand-computed flag cases); not silicon',
+                       'oracle/thumb.py interprets the ARMv6-M *source text* (GNU-as macro expansion, Thumb-1 semantics of the 17 mnemonics that occur, flags set by low-register data processing); results must not depend on the one encoding that is ambiguous without the assembler']
     need = ['raw384.mred|vcmp=/', 'raw384.mred|vcmp</top64=', 'raw384.mred|vcmp>/top64=', 'raw384.fpadd|cmp=/top64=', 'raw384.add|carry1/chain6', 'raw384.sub|borrow1/chain6', 'raw256.mred|', 'raw384.fpmul|',
             'higher-layer-differential:C04|', 'higher-layer-differential:C06|']
     for r in need:
@@ -404,7 +508,7 @@ def run(ctx):
             ctx.required_classes.add(r)
     if not any('/meta' in k and not k.endswith('/meta-/alias0') for k in ctx.classes):
         ctx.required_classes.add('raw384.mred|meta-carry-round')
-    for be in ('bmi2', 'x86base', 'p64', 'p32', 'asm-direct-base', 'asm-direct-bmi2', 'aarch64-interp'):
+    for be in ('bmi2', 'x86base', 'p64', 'p32', 'asm-direct-base', 'asm-direct-bmi2', 'aarch64-interp', 'armv6m-source-interp'):
         if not ctx.extra.get('events_' + be):
             ctx.required_classes.add('backend-executed:' + be)
     return None
